@@ -25,12 +25,16 @@ func c20InodeCsum(b []byte, seed, ino uint32) uint32 {
 	return crc.CRC32c(c, b)
 }
 
-// c20SealInode stores the valid checksum into the (symbolic) inode image.
+// c20SealInode restricts the (symbolic) inode image to those whose stored checksum
+// (i_checksum_lo at 0x7c, i_checksum_hi at 0x82) is the valid one.
 func c20SealInode(b []byte, seed, ino uint32) {
-	b[0x7c], b[0x7d], b[0x82], b[0x83] = 0, 0, 0, 0
-	c := c20InodeCsum(b, seed, ino)
-	b[0x7c], b[0x7d] = byte(c), byte(c>>8)
-	b[0x82], b[0x83] = byte(c>>16), byte(c>>24)
+	z := make([]byte, len(b))
+	copy(z, b)
+	z[0x7c], z[0x7d], z[0x82], z[0x83] = 0, 0, 0, 0
+	var st [4]byte
+	copy(st[0:2], b[0x7c:0x7e])
+	copy(st[2:4], b[0x82:0x84])
+	vp.Assume(binary.LittleEndian.Uint32(st[:]) == c20InodeCsum(z, seed, ino))
 }
 
 func c20SB(inodeSize uint16, blockSize uint32, huge bool) *superblock {
@@ -47,8 +51,9 @@ func VP_C20_inode_fields() {
 	b := vp.Bytes("inode", 256)
 	ino := vp.U32("ino")
 	sb := c20SB(256, 4096, vp.Bool("hugefile"))
-	// not an extent-mapped inode here (extent root parsing is VP_C20_inode_extent_root)
+	// not an extent-mapped inode and not a symlink here (VP_C20_inode_extent_root, VP_C20_inode_symlink_*)
 	vp.Assume(b[0x22]&0x08 == 0)
+	vp.Assume(b[1]&0xf0 != 0xa0)
 	c20SealInode(b, sb.checksumSeed, ino)
 	ref := make([]byte, 256)
 	copy(ref, b)
